@@ -7,10 +7,11 @@ namespace hist {
 
 // ======================================================================= construction
 
-HistSim::HistSim(const Options& o, Transcript* t, bool real) : opt(o), t_(t), real_(real) {
+HistSim::HistSim(const Options& o, Transcript* t, bool real)
+    : opt(o), tmpAlloc_(o.instBase + 99, nullptr), t_(t), real_(real) {
   docs_.resize(size_t(o.ndocs));
   for (int d = 0; d < o.ndocs; d++) {
-    allocs_.emplace_back(new SimAllocator(d, t));
+    allocs_.emplace_back(new SimAllocator(o.instBase + d, t));
     allocs_.back()->moveOnRealloc = o.moveRealloc;
   }
   for (int d = 0; d < o.ndocs; d++) {
@@ -612,6 +613,8 @@ void HistSim::endOp(Judge& j, const Op& op, size_t ix) {
       ds.ovf = ovfNow;
     }
   }
+  if (j.hasReturn)
+    obs.u(j.actual);
   pruneRefs();
   checkAll(op, ix, relaxed, j.doc);
 }
@@ -624,6 +627,7 @@ void HistSim::checkAll(const Op& op, size_t ix, bool relaxedDoc, int relaxedIdx)
     checkDoc(d, "after op");
     if (t_)
       t_->u(valueHash(ds.model));
+    obs.u(valueHash(ds.model));
     if (opt.inspect) {
       bool leaks = ds.leaky || (relaxedDoc && relaxedIdx == d);
       auto rep = verif::Inspector::checkShape(*ds.doc, leaks ? "C05:shape-after-failure" : "C04:shape", leaks);
@@ -1304,7 +1308,7 @@ void HistSim::opCopy(const Op& op, size_t ix) {
   std::string alias = aliasClass(*this, *dst, *src);
   if (!alias.empty()) {
     const Val* sn = nodeOf(*src);
-    std::string sig = alias + (sn->isContainer() ? ":container" : (sn->k == K::Str && !sn->linked) || sn->k == K::Raw ? ":owned-string" : ":scalar");
+    std::string sig = alias + (sn->isContainer() ? ":container" : (sn->k == K::Str && (!sn->linked || opt.replica)) || sn->k == K::Raw ? ":owned-string" : ":scalar");
     count(("alias." + sig).c_str());
     if (opt.skipKnown && opt.known.count(sig)) {
       lastSkip = "known:" + sig;
